@@ -102,7 +102,10 @@ JDiff(i, e) ==
        ELSE /\ Chk(e.dd = IntVal(dd), i, e, "datediff", IF Abs(dd) > 106751 THEN "far" ELSE "near", dd)
             /\ ((e.v.us = 0 /\ e.b.us = 0) =>
                   /\ \A u \in DateUnits :
-                       Chk(e.ts[u] = IntVal(TimestampDiff(u, s, t)), i, e, "timestampdiff-" \o u, "", TimestampDiff(u, s, t))
+                       Chk(e.ts[u] = IntVal(TimestampDiff(u, s, t)), i, e, "timestampdiff-" \o u,
+                           \* classification: same day of the month and hour, different minute (recorded finding)
+                           IF s.d = t.d /\ s.sod \div 3600 = t.sod \div 3600 /\ s.sod \div 60 # t.sod \div 60 THEN "samehour" ELSE "",
+                           TimestampDiff(u, s, t))
                   /\ (NearEnough(s, t) =>
                         \A u \in SecUnits :
                           Chk(e.ts[u] = IntVal(TimestampDiff(u, s, t)), i, e, "timestampdiff-" \o u, "", TimestampDiff(u, s, t))))
